@@ -663,6 +663,10 @@ func IntervalIndexGen(ck Chunk, opt *query.ProcessorOptions) {
 	times := chunk.Time()
 	tagIndexOffset := 0
 	stopTime := opt.StopTime()
+	if opt.IsPromQuery() && ascending {
+		// prom cursors emit the step time, i.e. sample time + query offset: the last window is shifted as well
+		stopTime += opt.GetPromQueryOffset().Nanoseconds()
+	}
 
 	for i := range times {
 		// init first time stop window
